@@ -361,7 +361,7 @@ def run_sorting(ctx):
         ctx.holds("R1", C, where(mod, inner), "pairs (i, j) with i < j < len: every unordered pair exactly once", key="pair-range")
     elif start == poly.norm(poly.parse(ivar)) and stop == want_stop:
         ctx.violated("R1", C, where(mod, inner), "inner loop starts at i: every member is also compared with itself (harmless only for an irreflexive comparator; with the epsilon comparator a member would count as dominating itself)", key="pair-range")
-    elif not ({k_ for m_ in list(stop.num) + list(start.num) for k_, _e in m_} <= {ivar, "len(%s)" % pop}):
+    elif not ({k_ for m_ in list(stop.num) + list(start.num) for k_, _e in m_} <= {k_ for r_ in (want_start, want_stop) for m_ in r_.num for k_, _e in m_}):
         ctx.inconclusive("R1", C, where(mod, inner), "inner loop %s: bounds [%s, %s) contain terms the rule does not know" % (text(inner.iter), poly.key_of(start), poly.key_of(stop)), key="pair-range")
     else:
         ctx.violated("R1", C, where(mod, inner), "inner loop %s visits members [%s, %s): it does not enumerate every pair (i, j), i < j < len(%s): some pairs are never compared" % (text(inner.iter), poly.key_of(start), poly.key_of(stop), pop), key="pair-range")
